@@ -98,6 +98,13 @@ class Prog:
                 return
             if d == "io::slippi::de::if_more":
                 cl = strip(n["args"][1])
+                if cl.get("k") == "Path" and cl.get("res") == "def" and (cl.get("dk") or "") in ("Fn", "AssocFn"):
+                    # `if_more(r, f)` with a function item is `if_more(r, |r| f(r))`
+                    self.tails += 1
+                    call = dict(cl)
+                    call.update({"k": "Call", "args": [n["args"][0]]})
+                    self.ev(call, tag, self.tails)
+                    return
                 if cl.get("k") != "Closure":
                     raise Unsupported(n, "if_more without a closure")
                 self.tails += 1
